@@ -303,6 +303,10 @@ class Spec:
             for i, c in enumerate(k[1]): yield from self.root_sequences(c, M.item(x, i), path)
         elif K == 'items' and k[1] in (list, tuple, cabc.Sequence, cabc.MutableSequence):
             yield (k[1], k[2], x)
+        elif K == 'items' and k[1] in (cabc.Iterable, cabc.Container, cabc.Reversible):
+            # the hints whose check samples an item by index when the OBJECT is a sequence: "for sequences under random sampling every
+            # index is reachable" is then about the object being a Sequence, whatever the (broader) origin of the hint
+            yield (cabc.Sequence, k[2], x)
 
     # ---- validators
     @staticmethod
